@@ -161,6 +161,35 @@ def _harness(kind):
 
 HARNESSES = [_harness(k) for k in range(6)]
 
+def real_replay(harness, args, failure):
+    """Thread kinds, graceful terminate: reproduce the landing on a real thread with a line tracer."""
+    import re
+    if harness not in ("thread", "pthread") or args.get("fault") != 1:
+        return None, "real-thread replay covers the thread kinds with fault=terminate only"
+    m = re.search(r"label=(\S+)", failure.get("detail", ""))
+    if not m or ":" not in m.group(1) or m.group(1).startswith("target:"):
+        return None, "landing label has no source line"
+    label = m.group(1)
+    from .. import realthread
+    realthread.restore_real_world()
+    from pyworkers.thread import ThreadWorker
+    from pyworkers.persistent_thread import PersistentThreadWorker
+    ending, idx = ENDINGS[args["e"]]
+    cls = ThreadWorker if harness == "thread" else PersistentThreadWorker
+    T.reset()
+    r = realthread.run_with_landing(lambda: cls(T.work, args=[ending, idx]), label,
+                                    after=(lambda w: w.enqueue()) if harness == "pthread" else None)
+    if r is None or not r["fired"]:
+        return None, "the real thread never reached %s" % label
+    alive, he, res, err = r["observed"]
+    sig = failure["signature"]
+    if "has_error-None" in sig:
+        return (he is None), "real thread, WorkerTerminatedError raised at %s: observed %r" % (label, r["observed"])
+    if "raises" in sig:
+        return (isinstance(he, str) and he.startswith("raises")), "real thread at %s: observed %r" % (label, r["observed"])
+    return None, "real thread at %s: observed %r (no automatic comparison for this signature)" % (label, r["observed"])
+
+
 SPEC = PropSpec(
     "C01", HARNESSES,
     assumptions=[
@@ -174,5 +203,6 @@ SPEC = PropSpec(
     ],
     outside=["sub-statement landing points", "kills inside C code", "real kernel buffering and timing", "result larger than the pipe buffer (C02)"],
     stubs=["vf/simos.py: FakeThread, FakeEvent, FakeProcess, FakeConn, FakeSocket, FakeQueue, os/signal/time modules"],
+    real_replay=real_replay,
     technique="CrossHair/z3 bounded symbolic execution over a deterministic simulation of the real worker code",
 )
